@@ -9,6 +9,8 @@ import (
 	"testing"
 	"time"
 
+	"pgregory.net/rapid"
+
 	"github.com/refraction-networking/uquic/verif/sim"
 	"github.com/refraction-networking/uquic/verif/vf"
 )
@@ -92,6 +94,61 @@ func bookkeeping(c Case, r *result, u *vf.Unit) {
 	if r.forgeAfterKeyUpdate {
 		u.Class("forge-after-key-update")
 	}
+	if c.Cause == "craft" {
+		kind := c.ClientKind
+		if kind == "" {
+			kind = "transport"
+		}
+		u.Class("craft:client:" + kind)
+		final := "local-close"
+		for _, cr := range r.crafts {
+			if cr.rec < 0 || len(r.log[cr.rec].Dlv) == 0 {
+				continue
+			}
+			lb := "21..41"
+			switch n := len0(cr); {
+			case n < 17:
+				lb = "6..16"
+			case n < 21:
+				lb = "17..20"
+			case n == 42:
+				lb = "42"
+			case n > 42:
+				lb = ">42"
+			}
+			switch {
+			case cr.valid:
+				final = "valid-reset"
+				u.Class(fmt.Sprintf("craft:valid:to=%s:path=%s:len=%s", c.By, cr.path, lb))
+				u.Class(fmt.Sprintf("craft:valid:len=%d", cr.Len))
+				if cr.keyGen > 0 {
+					u.Class("craft:valid:after-key-update:path=" + cr.path)
+				}
+				if len(cr.pending) >= 2 {
+					u.Class("craft:valid:calls-blocked>=2")
+				}
+				for _, n := range cr.pending {
+					u.Class("craft:valid:blocked:" + n)
+				}
+			case cr.subMin:
+				// 17..20 bytes with the token in use: the outcome is observed (obs:below-minimum-reset-*), not judged
+				u.Class(fmt.Sprintf("craft:below-minimum:path=%s", cr.path))
+			default:
+				u.Class(fmt.Sprintf("craft:ignored:token=%s:path=%s:len=%s", cr.tok, cr.path, lb))
+			}
+			if cr.note != "" {
+				u.Class("craft:note:" + cr.note)
+			}
+		}
+		u.Class("craft:final:" + final)
+		if !r.subMinAccepted {
+			for _, cr := range r.crafts {
+				if cr.subMin && cr.rec >= 0 && len(r.log[cr.rec].Dlv) > 0 {
+					u.Class("obs:below-minimum-reset-ignored:path=" + cr.path)
+				}
+			}
+		}
+	}
 	if r.forgeName != "" {
 		u.Class("forge:" + r.forgeName)
 	}
@@ -144,6 +201,45 @@ func TestEndMatrix(t *testing.T) {
 	curT = t
 	vf.ReplayRepeat = 40
 	vf.RunRapid(t, "end-matrix", genCase, checkCase)
+}
+
+// TestCraftOnly runs the generator restricted to one cause (development aid: VERIF_C17_ONLY=craft [-rapid.checks=n]);
+// violations are collected per signature and printed, the search goes on.
+func TestCraftOnly(t *testing.T) {
+	only := os.Getenv("VERIF_C17_ONLY")
+	if only == "" {
+		t.Skip("VERIF_C17_ONLY not set")
+	}
+	curT = t
+	u := vf.U("dev-only") // (class counters end up in the -verif.stats file)
+	sigs := map[string]int{}
+	first := map[string]string{}
+	n := 0
+	rapid.Check(t, func(rt *rapid.T) {
+		c := genCase(rt)
+		if c.Cause != only {
+			return
+		}
+		n++
+		t0 := time.Now()
+		defer func() {
+			if d := time.Since(t0); d > 100*time.Millisecond && os.Getenv("VERIF_C17_SLOW") != "" {
+				b, _ := json.Marshal(c)
+				t.Logf("SLOW %v %s", d, b)
+			}
+		}()
+		if v := vf.Guard("end-matrix", func() *vf.Verdict { return checkCase(c, u) }); v != nil {
+			sigs[v.Sig]++
+			if _, ok := first[v.Sig]; !ok {
+				b, _ := json.Marshal(c)
+				first[v.Sig] = string(b) + "\n" + v.Detail
+			}
+		}
+	})
+	t.Logf("%d cases of cause %s", n, only)
+	for s, k := range sigs {
+		t.Logf("VIOLATION %s x%d\n%s", s, k, first[s])
+	}
 }
 
 // TestOne re-runs the case in the file named by VERIF_C17_CASE (development aid; skipped otherwise).
